@@ -154,6 +154,53 @@ def _impl(f, adt, trait_canon):
     return out
 
 
+def _enum_strings_by_value(f, adt, names):
+    from ..sym import STRUCT
+    short = adt
+    wr = [b for b in f.bodies.values() if not b.is_closure and b.fn_name == 'from' and (b.impl_trait or '').endswith('convert::From')
+          and 'String' in (b.raw['locals'][0]['ty']) and b.arg_count == 1 and f.norm(b.local_ty(1)) == short]
+    rd = [b for b in f.bodies.values() if not b.is_closure and f.norm(b.impl_self_adt or '') == adt and
+          ((b.fn_name == 'try_from' and 'TryFrom' in (b.impl_trait or '') and b.arg_count == 1 and 'String' in b.local_ty(1)) or
+           (b.fn_name == 'from_str' and (b.impl_trait or '').endswith('FromStr')))]
+    rd = sorted(rd, key=lambda b: b.fn_name != 'try_from')
+    if len(wr) != 1 or not rd:
+        return False, 'no String conversions found'
+    written = {}
+    for vi, v in enumerate(names):
+        sx = SymEx(f)
+        try:
+            outs = sx.run(f.nest_form(wr[0], yields=False), [STRUCT(adt, (v, vi), [])])
+        except Exception:      # noqa: BLE001
+            return False, 'writer not evaluated'
+        if len(outs) != 1 or sx.aborted:
+            return False, 'writer not a single path for %s' % v
+        r = sx.deep(outs[0].st, outs[0].ret)
+        while isinstance(r, tuple) and r[0] == 'app' and r[1].rsplit('::', 1)[-1] in ('from', 'to_string', 'to_owned', 'into') and len(r[2]) == 1:
+            r = r[2][0]
+        if not (isinstance(r, tuple) and r[0] == 'str'):
+            return False, 'the written name of %s is not a constant' % v
+        written[v] = r[1]
+    if len(set(written.values())) != len(names):
+        return False, 'two variants are written with the same name: %s' % written
+    for vi, v in enumerate(names):
+        sx = SymEx(f)
+        try:
+            outs = sx.run(f.nest_form(rd[0], yields=False), [('str', written[v])])
+        except Exception:      # noqa: BLE001
+            return False, 'reader not evaluated'
+        if len(outs) != 1 or sx.aborted:
+            return False, 'reader(%r) is not a single path' % written[v]
+        r = sx.deep(outs[0].st, outs[0].ret)
+        got = None
+        if isinstance(r, tuple) and r[0] == 'struct' and r[2] is not None and r[2][0] == 'Ok':
+            pv = sfield(r, '0')
+            if isinstance(pv, tuple) and pv[0] == 'struct' and pv[2] is not None:
+                got = pv[2][0]
+        if got != v:
+            return False, 'variant %s is written as %r, which reads back as %s' % (v, written[v], got)
+    return True, 'written through String::from(variant), read through %s: reader(writer(v)) = v for %s (by value)' % (rd[0].fn_name, names)
+
+
 def _serde(ctx):
     rep, f = ctx.rep, ctx.facts
     n_ok = 0
@@ -187,6 +234,18 @@ def _serde(ctx):
             vs = [b for b in nested if b.fn_name == 'visit_str']
             dkeys = [x[1] for b in vs for x in strs_in_call_args(b)]
             ok = sorted(set(skeys)) == sorted(names) and sorted(set(dkeys)) == sorted(names)
+            if not ok and not skeys and not dkeys:
+                # `#[serde(into = "String", try_from = "String")]`: written as String::from(variant), read back by
+                # TryFrom<String> / FromStr.  By value, per variant: reader(writer(v)) = v and the written names are distinct
+                okv, whyv = _enum_strings_by_value(f, adt, names)
+                if okv:
+                    rep.ok('R1', 'variant-names-agree:%s' % adt, where(s), whyv)
+                    n_ok += 1
+                    continue
+                rep.fail('R1', 'variant-names-agree:%s' % adt, where(s),
+                         'enum %s is written and read through string conversions that do not round-trip: %s' % (adt, whyv))
+                n_ok += 1
+                continue
             rep.check(ok, 'R1', 'variant-names-agree:%s' % adt, where(s), 'writer and reader use %s' % names,
                       'enum %s: writer emits %s, reader accepts %s, variants are %s' % (adt, sorted(set(skeys)), sorted(set(dkeys)), names))
             n_ok += 1
